@@ -107,8 +107,9 @@ Proof.
   - reflexivity.
   - destruct (t_lookup id (tb s)) as [x|]; auto. destruct (s_reserved x); reflexivity.
   - reflexivity.
-  - destruct (t_lookup id (tb s)) as [x|]; auto. destruct ((pending && s_reserved x) || s_expired x); auto.
-    destruct (t_get id now (tb s)); auto. destruct (x_add mx (s_exch x) _) as [[x' i]|]; reflexivity.
+  - destruct (t_lookup id (tb s)) as [x|]; auto. destruct (pending && s_reserved x); auto.
+    destruct (t_get id now (tb s)); auto. destruct (s_expired x); auto.
+    destruct (x_add mx (s_exch x) _) as [[x' i]|]; reflexivity.
   - destruct (t_lookup id (tb s)) as [x|]; auto.
     destruct (nth_error (s_exch x) xi) as [[[]|]|]; auto. destruct (t_get id now (tb s)); reflexivity.
   - destruct (t_lookup id (tb s)) as [x|]; auto.
